@@ -11,6 +11,7 @@ package main
 
 import (
 	"fmt"
+	"strconv"
 	"math/rand"
 	"strings"
 
@@ -51,7 +52,21 @@ func commentBody(c comment) string {
 
 func commentText(c comment) string {
 	b := commentBody(c)
+	if n, ok := strings.CutPrefix(c.Sp, "long"); ok && c.M != "/*" {
+		// a line comment of exactly n bytes whose tail is valid VCL
+		size, _ := strconv.Atoi(n)
+		tail := ` log "activated";`
+		return c.M + strings.Repeat("x", size-len(c.M)-len(tail)) + tail
+	}
 	switch {
+	case c.M == "/*" && c.Sp == "stars2":
+		return "/**" + b + " **/"
+	case c.M == "/*" && c.Sp == "stars3":
+		return "/*" + b + " ***/"
+	case c.M == "/*" && c.Sp == "stars4":
+		return "/****" + b + " ****/"
+	case c.M == "/*" && c.Sp == "tri":
+		return "/***/"
 	case c.Sp == "bare": // nothing but the marker
 		if c.M == "/*" {
 			return "/**/"
@@ -169,7 +184,7 @@ func render(toks []piece, cm []comment, lay *layout) (string, []piece) {
 		case "g":
 			gaps = append(gaps, p)
 			for _, c := range at[len(gaps)] {
-				if c.Sp == "blankonly" { // no comment, just an empty line at this (own-line) position
+				if c.Sp == "blankonly" { // no comment, just an empty line at this position
 					if !lineEmpty {
 						nl()
 					}
